@@ -88,6 +88,7 @@ def c12(c):
 
 
 CAPACITY = ("capacity", lambda c: ["-mode", "capacity", "-seed", c.seed, "-runs", 150 if c.quick else 1500])
+PROMPT = ("prompt", lambda c: ["-mode", "prompt", "-seed", c.seed, "-runs", 120 if c.quick else 1200])
 PILEUP = ("pileup", lambda c: ["-mode", "pileup", "-seed", c.seed, "-runs", 250 if c.quick else 2500])
 
 REGISTRY = {
@@ -98,7 +99,7 @@ REGISTRY = {
     "C06": generic("C06", ["q_ff"], ["q_ff", "t_all3", "t_ff4"], extra=[PILEUP]),
     "C07": generic("C07", ["q_ff", "q_ctx2"], ["q_ff", "t_ff4", "t_can4", "t_ctx2"]),
     "C08": generic("C08", ["q_coe"], ["q_coe", "t_coe4", "t_all3"]),
-    "C09": generic("C09", ["q_can", "q_ctx2"], ["q_can", "t_can4", "t_all3", "t_ctx2"]),
+    "C09": generic("C09", ["q_can", "q_ctx2"], ["q_can", "t_can4", "t_all3", "t_ctx2"], extra=[PROMPT]),
     "C12": c12,
     "C19": generic("C19", ["q_ff"], ["q_ff", "t_n3"], extra=[PILEUP]),
 }
